@@ -112,6 +112,8 @@ func streamScenarios() []streamScenario {
 		x.Name = fmt.Sprintf("create=true sends=%d recvs=%d pre-cancelled probe=%s", x.Sends, x.Recvs, x.Probe)
 		out = append(out, x)
 	}
+	// operations of several goroutines on a stream that already exists
+	out = append(out, streamScenario{Name: "create=true sends=1 recvs=2 probe=CloseSend", CreateOK: true, Sends: 1, Recvs: 2, Probe: "CloseSend"})
 	// the server answers only after the client's half-close: a Header() call parked since before the
 	// creation must not keep the other operations from reaching the stream
 	out = append(out, streamScenario{Name: "create=true sends=3 recvs=0 lazy-headers probe=Header", CreateOK: true, Sends: 3, Probe: "Header", LazyHeaders: true},
@@ -246,7 +248,15 @@ func streamBody(sc streamScenario) func(s *vsched.Sched) *vsched.ExecOutcome {
 						r.violate("C12.S1", "stream context lost the caller's values", "")
 					}
 				case "CloseSend":
+					createdBefore := r.createdAt > 0
+					n0 := 0
+					if r.fs != nil {
+						n0 = countOf(r.fs.log, "CloseSend")
+					}
 					probeRes = fmt.Sprint(cs.CloseSend())
+					if createdBefore && countOf(r.fs.log, "CloseSend") == n0 {
+						r.violate("C12.S5", "CloseSend on an already created stream did not reach the underlying stream", "returned "+probeRes)
+					}
 				}
 			})
 		}
@@ -320,6 +330,16 @@ func streamBody(sc streamScenario) func(s *vsched.Sched) *vsched.ExecOutcome {
 		out := fmt.Sprintf("send=%v recv=%v probe=%s streamer=%d parked=%d", sendRes[:max(sc.Sends, 0)%4], recvRes, probeRes, r.streamerCalls, len(s.Alive()))
 		return &vsched.ExecOutcome{Outcome: out, StateKey: out, Nontrivial: r.streamerCalls > 0 || sc.Cancel, Violations: r.viol}
 	}
+}
+
+func countOf(l []string, x string) int {
+	n := 0
+	for _, e := range l {
+		if e == x {
+			n++
+		}
+	}
+	return n
 }
 
 func max(a, b int) int {
